@@ -63,7 +63,8 @@ class CFG:
             a.succ.append(b)
             b.pred.append(a)
         if label:
-            self.edge_label[(a.id, b.id)] = label
+            prev = self.edge_label.get((a.id, b.id))
+            self.edge_label[(a.id, b.id)] = label if prev in (None, label) else 'both'
 
     def _connect(self, preds: Iterable, node: Node):
         for p in preds:
